@@ -21,10 +21,15 @@ func cmdConc(args []string) {
 	kinds := fs.String("kinds", "map,cont,flag,counter,i64,u32,u64,str,gas", "object kinds, visited round-robin")
 	out := fs.String("out", "conc.ndjson", "output file")
 	raceLog := fs.String("racelog", "", "log_path given to GORACE (race builds): reports are attributed to the round they appeared in")
+	gmax := fs.Int("gmax", 16, "largest number of goroutines of a logged round (4..16)")
 	bulk := fs.Int("bulk", 0, "operations per goroutine of the unlogged bulk runs (0 = none)")
 	bulkG := fs.Int("bulkg", 8, "goroutines of the bulk runs")
 	bulkReps := fs.Int("bulkreps", 1, "repetitions of the bulk runs")
 	fs.Parse(args)
+	if *gmax < 4 || *gmax > 16 {
+		die(fmt.Errorf("gmax out of range"))
+	}
+	conc.MaxG = *gmax
 
 	w, err := conc.NewWriter(*out, *raceLog)
 	if err != nil {
